@@ -260,6 +260,25 @@ def handle (args : List String) : String :=
       let e ← parse a; let xs ← Spec.elems (← Spec.eval e)
       pure s!"{xs.length} {showList xs}"
     s!"{m}\t{s}"
+  | ["card", a] =>
+    -- `Cardinality()` and `IsEmpty()` of a (lazy) set, never iterated. Model: the transcription of UpdateSize with
+    -- its saturation. Specification: emptiness is structural (a power set is never empty, a product is empty iff a
+    -- factor is, an enumeration iff it has no member); the number itself is specified only up to SET_INFINITY.
+    let m := orStuck do
+      let l ← evalL (← parse a); let c ← l.card
+      pure s!"{c} {bit (c == 0)}"
+    let rec emptySpec : Ex → Option Bool
+      | .node 'S' cs => some cs.isEmpty
+      | .node 'G' _ => some false
+      | .node 'P' _ => some false
+      | .node 'X' fs => (fs.mapM emptySpec).map (·.any id)
+      | _ => none
+    let s := orNA do
+      let e ← parse a; let em ← emptySpec e
+      let l ← evalL e
+      let exact : Option Nat := match l with | .enum xs => some xs.length | _ => none
+      pure s!"{(exact.map toString).getD "x"} {bit em}"
+    s!"{m}\t{s}"
   | ["has", a, x] =>
     let m :=
       orStuck do
